@@ -88,6 +88,7 @@ def _programs(tier, seed):
         'raises': [S(['cont', [None], {}], yields=1), S(['raise', 'bad'], sync=True)],
         'killcmd': [S(['wait', 'w', None], yields=1), S(['kill', 'cmd-kill'], sync=True)],
         'single': [S(['value', None], sync=True)],
+        'misuse': [S(['cont', [], {}], sync=True), S(['misuse', 'v'], yields=1)],  # ends EXCEPTED with plumpy's own EventError
         'two_waits': [S(['wait', 'a', {'x': 1}], sync=True), S(['wait', 'b', None], yields=1), S(['value', 0], sync=True)],
     }
     progs = {k: {'steps': v} for k, v in P.items()}
